@@ -9,3 +9,6 @@ ASSUMPTIONS = W.ASSUMPTIONS
 suites = W.suites
 classify = W.classify
 replay_case = W.replay_case
+
+MANIFEST_ADD = {"text": "Add-on Props/C09_cfg.v (C09_cfg_flags_served): from every documented Start*Server factory (generated table of all ten: argument binding against the constructor's signature, popped keys, **kwargs forwarding) through the constructor wiring, the flags broadcast_enable / ignore_missing_slaves the handlers read are the values the user passed, the defaults only when nothing was passed; tied by calling the real factories with the serving loop / reactor / event loop stubbed out.",
+                "note": "The factories' runtime (serve_forever, reactor, event loop, serial ports) is stubbed in the correspondence, not modelled."}
